@@ -36,6 +36,28 @@ SPECS = {
         sum_lemmas={"validated_slice_thickness": "lambda k: psum(slice_thickness, k)", "result": "lambda k: psum(slice_thickness, k)"},
         cross_check=False,
     ),
+    # entrance / exit depth of every slice: contiguous, starting at 0, slice i is exactly slice_thickness[i] thick and the
+    # last exit depth is the sum of the thicknesses (with the contract above: the cell height)
+    "slice_limits": dict(
+        module=M, qualname="slice_limits", params=dict(slice_thickness=Seq(Real, pytype="tuple")),
+        requires=["len(slice_thickness) >= 1", "forall(lambda i: slice_thickness[i] > 0, 0, len(slice_thickness))"],
+        ensures=[
+            ("one-pair-per-slice", "len(result) == len(slice_thickness)"),
+            ("starts-at-zero", "result[0][0] == 0"),
+            ("entrance-is-sum-of-thicknesses-above", "forall(lambda i: result[i][0] == psum(slice_thickness, i), 0, len(slice_thickness))"),
+            ("thickness-of-each-slice", "forall(lambda i: result[i][1] - result[i][0] == slice_thickness[i], 0, len(slice_thickness))"),
+            ("contiguous", "forall(lambda i: result[i][1] == result[i + 1][0], 0, len(slice_thickness) - 1)"),
+            ("ends-at-total", "result[len(slice_thickness) - 1][1] == psum(slice_thickness, len(slice_thickness))"),
+        ],
+        refute_hints=["len(slice_thickness) == 2"],
+        cross_check=True,
+    ),
+    "_unpack_item/int": dict(
+        module=M, qualname="_unpack_item", params=dict(item=Int, num_items=Int), requires=["num_items >= 1", "item >= 0"],
+        raises={"IndexError": "item >= num_items"},
+        ensures=[("single-slice", "result[0] == item and result[1] == item + 1 and result[1] <= num_items")],
+        cross_check=True,
+    ),
 }
 
 
